@@ -48,6 +48,10 @@ def generate(seed, tier):
         if m < 0.08 and j > 0:
             ops.append({"op": "reparam", "pseed": P.s64(r), "scale": r.choice([0.1, 1.0, 5.0, 30.0])})
             continue
+        if m < 0.11:
+            # the public per-batch gradient method starts its negative-phase chains from the caller's rows
+            ops.append({"op": "cbg", "k": r.choice([1, 2, 3]), "rows": r.randint(1, 5), "sub": P.s64(r), "dseed": P.s64(r)})
+            continue
         k = r.choice(KS) if r.random() > 0.03 else r.choice(KS_LONG)
         prev = [i for i, o in enumerate(ops) if o["op"] == "sample"]
         sk = r.random()
@@ -58,8 +62,8 @@ def generate(seed, tier):
             start = {"kind": "prev", "ref": r.choice(prev)}
             via = r.choice(["state", "rbm"])
         else:
-            dim = r.choice([1, 2, 2, 2])
-            nrows = 1 if dim == 1 else r.choice([1, 2, 3, 4, 5, 6, 6, 9, 17])
+            dim = r.choice([1, 2, 2, 2, 2, 3])  # 3: a contiguous block of shape (R, C, n_v)
+            nrows = 1 if dim == 1 else (r.choice([2, 4, 6, 12]) if dim == 3 else r.choice([1, 2, 3, 4, 5, 6, 6, 9, 17]))
             rows = [[r.randint(0, 1) for _ in range(nv)] for _ in range(nrows)]
             if nrows >= 2 and r.random() < 0.4:
                 rows[-1] = list(rows[0])  # repeated rows
@@ -199,6 +203,24 @@ def execute(plan):
                 static_rules(mi)
                 continue
             table = tables[mi]
+            if op["op"] == "cbg":
+                g_ = np.random.Generator(np.random.PCG64(op["dseed"]))
+                smp = torch.tensor(g_.integers(0, 2, size=(op["rows"], nv)).astype(np.float64), dtype=torch.double)
+                neg = torch.tensor(g_.integers(0, 2, size=(op["rows"], nv)).astype(np.float64), dtype=torch.double)
+                smp0, neg0 = smp.clone(), neg.clone()
+                rng.stream(op["sub"])
+                try:
+                    if scfg["type"] == "positive":
+                        state.compute_batch_gradients(op["k"], smp, neg)
+                    else:
+                        state.compute_batch_gradients(op["k"], smp, neg, np.full((op["rows"], nv), "Z"))
+                except Exception as exc:  # noqa: BLE001
+                    run.lib_exception(exc, "compute_batch_gradients")
+                if not torch.equal(neg, neg0) or not torch.equal(smp, smp0):
+                    run.violate("4", f"op {j}: compute_batch_gradients(k={op['k']}) modified the caller's batches (the start states of its negative-phase chains were overwritten although no overwriting was requested)", k=op["k"], start="cbg")
+                rng.check_global()
+                trace.append(("cbg", op["k"], op["rows"]))
+                continue
             k = op["k"]
             st = op["start"]
             kind = st["kind"]
@@ -243,6 +265,8 @@ def execute(plan):
                 rows = st["rows"]
                 rows = [row[:nv] + [0] * (nv - len(row)) for row in rows]
                 start_t = torch.tensor(rows[0] if st["dim"] == 1 else rows, dtype=dt)
+                if st["dim"] == 3:
+                    start_t = start_t.reshape(2, len(rows) // 2, nv)
                 if st["dim"] == 2 and st.get("layout") == "transposed":
                     start_t = start_t.t().contiguous().t()  # same values, column-major memory
                 elif st["dim"] == 2 and st.get("layout") == "colslice":
